@@ -321,30 +321,42 @@ func c05(r *core.Run) {
 
 	// ---- D2 --------------------------------------------------------------
 	method := core.Field{Struct: "Request", Name: "method"}
+	// the method field by role: the field the exported Method() accessor returns
+	for _, m := range methodsOf(p, "", "Request") {
+		if m.Name() == "Method" {
+			for _, ret := range core.Returns(m) {
+				if f, ok := core.LoadedField(ret.Results[0]); ok {
+					method = f
+				}
+			}
+		}
+	}
 	shapes := map[string]string{}
 	for _, c := range core.Calls(d) {
 		if !core.IsDynamic(c) {
 			continue
 		}
-		phi, ok := c.Common().Value.(*ssa.Phi)
-		if !ok {
-			continue
+		hv := c.Common().Value
+		if _, direct := core.LoadedField(hv); direct {
+			continue // Access / Get / New: called straight from the Handler field
 		}
 		var mapField core.Field
-		var byMethod, byStar, nilEdge bool
+		var byMethod, byStar, nilLeaf bool
 		var starLookup, methLookup *ssa.Lookup
-		for _, ed := range phi.Edges {
-			switch x := ed.(type) {
+		for _, lf := range valueLeaves(hv, nil, 0) {
+			switch x := lf.V.(type) {
 			case *ssa.Const:
-				nilEdge = nilEdge || x.IsNil()
+				nilLeaf = nilLeaf || x.IsNil()
 			case *ssa.Lookup:
-				mf, _ := core.LoadedField(x.X)
-				mapField = mf
-				if f, ok := core.LoadedField(x.Index); ok && f == method {
+				if mf, ok := core.LoadedField(lf.Rs.R(x.X)); ok {
+					mapField = mf
+				}
+				idx := lf.Rs.R(x.Index)
+				if f, ok := core.LoadedField(idx); ok && f == method {
 					byMethod = true
 					methLookup = x
 				}
-				if s, ok := core.ConstString(x.Index); ok && s == "*" {
+				if s, ok := core.ConstString(idx); ok && s == "*" {
 					byStar = true
 					starLookup = x
 				}
@@ -353,7 +365,7 @@ func c05(r *core.Run) {
 		if mapField.Name == "" {
 			continue
 		}
-		// "*" lookup only on the nil edge of the method lookup
+		// "*" lookup only on the nil edge of the method lookup (both live in the same function)
 		starAfter := false
 		if starLookup != nil && methLookup != nil {
 			for _, ed := range dominatingEdges(starLookup) {
@@ -369,31 +381,43 @@ func c05(r *core.Run) {
 				}
 			}
 		}
-		// the call is on the phi != nil edge; the nil edge replies methodNotFound
+		// the call is on the handler != nil edge; the nil edge replies methodNotFound
 		callGuard := false
 		for _, ed := range dominatingEdges(c) {
-			ci := core.Cond(ed.If.Cond)
-			if ci.Kind == "nilcmp" && ci.X == ssa.Value(phi) {
-				truth := ed.Succ == 0
-				if ci.Negate {
-					truth = !truth
+			ci := core.CondWith(ed.If.Cond, &core.Resolver{Env: map[*ssa.Parameter]ssa.Value{}})
+			x := ed.If.Cond
+			if bo, ok := x.(*ssa.BinOp); ok && (bo.X == hv || bo.Y == hv) {
+				isNilCmp := false
+				if cst, ok := bo.Y.(*ssa.Const); ok && cst.IsNil() {
+					isNilCmp = true
 				}
-				if (ci.Op == token.NEQ) == truth {
+				if cst, ok := bo.X.(*ssa.Const); ok && cst.IsNil() {
+					isNilCmp = true
+				}
+				if !isNilCmp {
+					continue
+				}
+				truth := ed.Succ == 0
+				if (bo.Op == token.NEQ) == truth {
 					callGuard = true
 					nilBlk := ed.If.Block().Succs[1-ed.Succ]
 					lit := ""
 					for _, in := range nilBlk.Instrs {
 						if cc, ok := in.(*ssa.Call); ok && len(cc.Common().Args) == 2 {
-							if u, ok := cc.Common().Args[1].(*ssa.UnOp); ok {
-								if g, ok := u.X.(*ssa.Global); ok {
-									lit = g.Name()
-								}
+							if g, ok := loadedGlobal(cc.Common().Args[1]); ok {
+								lit = g
 							}
 						}
 					}
-					shapes[mapField.Name] = fmt.Sprintf("method=%v star=%v starOnNil=%v nilPhi=%v nilReply=%s", byMethod, byStar, starAfter, nilEdge, lit)
+					code := ""
+					if lit != "" {
+						code = literalErrorCode(p, lit)
+					}
+					shapes[mapField.Name] = fmt.Sprintf("method=%v star=%v starOnNil=%v nilLeaf=%v nilReplyCode=%s", byMethod, byStar, starAfter, nilLeaf, code)
+					r.Check(code == stringConsts(p, "")["CodeMethodNotFound"], "E2", core.FuncName(d), "unknown-method("+mapField.Name+")->CodeMethodNotFound", p.InstrPos(ed.If), "no handler for the method: replies with a literal carrying "+code, "the unknown-method edge replies with code "+code)
 				}
 			}
+			_ = ci
 		}
 		good := byMethod && byStar && starAfter && callGuard
 		r.Check(good, "D2", core.FuncName(d), "lookup("+mapField.String()+"):[method]->[*]->notFound", p.InstrPos(c), "handler = map[method], else map[\"*\"], called only when non-nil", fmt.Sprintf("method lookup shape broken: byMethod=%v byStar=%v starOnlyAfterMiss=%v guardedCall=%v", byMethod, byStar, starAfter, callGuard))
@@ -410,7 +434,7 @@ func c05(r *core.Run) {
 				conds = append(conds, describeCond(ed))
 			}
 			cs := strings.Join(conds, "&")
-			good := strings.Contains(cs, `Request.method=="new"`) && strings.Contains(cs, "Handler.New!=nil") && strings.Contains(cs, `Request.rtype=="call"`)
+			good := strings.Contains(cs, method.String()+`=="new"`) && strings.Contains(cs, "Handler.New!=nil") && strings.Contains(cs, `Request.rtype=="call"`)
 			// it precedes the generic lookup: no Lookup on Handler.Call dominates it
 			for _, b := range d.Blocks {
 				for _, in := range b.Instrs {
@@ -501,24 +525,31 @@ func c05(r *core.Run) {
 		r.Unres("E1", "InternalError", "not found")
 	}
 	if fn := p.Func("ToError"); fn != nil {
-		good := false
+		hasAssert, hasInternal, other := false, false, ""
 		for _, ret := range core.Returns(fn) {
-			if phi, ok := ret.Results[0].(*ssa.Phi); ok {
-				hasAssert, hasInternal := false, false
-				for _, ed := range phi.Edges {
-					if ex, ok := ed.(*ssa.Extract); ok {
-						if _, ok := ex.Tuple.(*ssa.TypeAssert); ok && ex.Index == 0 {
-							hasAssert = true
-						}
+			for _, lf := range valueLeaves(ret.Results[0], nil, 0) {
+				switch x := lf.V.(type) {
+				case *ssa.Extract:
+					if ta, ok := x.Tuple.(*ssa.TypeAssert); ok && x.Index == 0 && core.TypeName(ta.AssertedType) == "Error" && core.Strip(ta.X) == ssa.Value(fn.Params[0]) {
+						hasAssert = true
+					} else {
+						other = valDesc(x)
 					}
-					if c, ok := ed.(*ssa.Call); ok && c.Common().StaticCallee() != nil && c.Common().StaticCallee().Name() == "InternalError" {
+				case *ssa.Alloc:
+					// InternalError's result when expanded: a fresh *Error
+					hasInternal = true
+				case *ssa.Call:
+					if c := x.Common().StaticCallee(); c != nil && c.Name() == "InternalError" {
 						hasInternal = true
+					} else {
+						other = "call:" + core.CalleeName(x)
 					}
+				default:
+					other = valDesc(lf.V)
 				}
-				good = hasAssert && hasInternal
 			}
 		}
-		r.Check(good, "E1", "ToError", "identity-on-*Error-else-InternalError", p.Pos(fn.Pos()), "returns the argument when it is an *Error, InternalError(err) otherwise", "ToError does not return its argument verbatim for *Error values")
+		r.Check(hasAssert && hasInternal && other == "", "E1", "ToError", "identity-on-*Error-else-InternalError", p.Pos(fn.Pos()), "returns the argument itself when its dynamic type is *Error (plain type assertion), InternalError(err) otherwise", "ToError does not map by a plain type assertion on its argument: "+other)
 	} else {
 		r.Unres("E1", "ToError", "not found")
 	}
@@ -574,8 +605,7 @@ func c05(r *core.Run) {
 	}
 	expect(proc, "param:mh==nil", "CodeNotFound", "no-resource")
 	expect(d, "Handler.Get==nil", "CodeNotFound", "get-without-handler")
-	expect(d, "phi:h==nil", "CodeMethodNotFound", "unknown-method")
-	expect(d, "!Request.replied", "CodeInternalError", "missing-reply")
+	expect(d, "!"+mReq.flag.String(), "CodeInternalError", "missing-reply")
 	// every handler return reaches the missing-reply fallback
 	var tail *ssa.BasicBlock
 	for _, b := range d.Blocks {
@@ -629,4 +659,17 @@ func instrIdx(in ssa.Instruction) int {
 		}
 	}
 	return 0
+}
+
+// literalErrorCode parses the static payload global and returns its error code.
+func literalErrorCode(p *core.Prog, gname string) string {
+	var obj struct {
+		Error *struct {
+			Code string `json:"code"`
+		} `json:"error"`
+	}
+	if json.Unmarshal([]byte(byteGlobals(p, "")[gname]), &obj) != nil || obj.Error == nil {
+		return ""
+	}
+	return obj.Error.Code
 }
